@@ -143,6 +143,185 @@ def image_of_json(j):
 
 
 # ------------------------------------------------------------------------------------------------
+# affine expressions (JSON as in Drv/Basic.lean: ["d", i] | ["c", n] | [op, a, b]), TRUE semantics
+# ------------------------------------------------------------------------------------------------
+NONLIN = ("//", "%", "ceildiv")
+OPTEXT = {"+": "+", "*": "*", "//": "floordiv", "%": "mod", "ceildiv": "ceildiv"}
+
+
+def ev(e, x):
+    """value of the expression at the point x with Python floor semantics (what xDSL/MLIR define)."""
+    t = e[0]
+    if t == "d":
+        return x[e[1]]
+    if t == "c":
+        return e[1]
+    a, b = ev(e[1], x), ev(e[2], x)
+    if t == "+":
+        return a + b
+    if t == "*":
+        return a * b
+    if t == "//":
+        return a // b
+    if t == "%":
+        return a % b
+    return -((-a) // b)
+
+
+def has_divmod(e):
+    return e[0] not in "dc" and (e[0] in NONLIN or has_divmod(e[1]) or has_divmod(e[2]))
+
+
+def has_dim(e):
+    return e[0] == "d" or (e[0] != "c" and (has_dim(e[1]) or has_dim(e[2])))
+
+
+def has_dim_product(e):
+    """a raw product of two dim-dependent sub-expressions: not an affine expression at all (xDSL's parser and
+    `*` refuse to build it), outside the property's quantifier"""
+    if e[0] in "dc":
+        return False
+    return (e[0] == "*" and has_dim(e[1]) and has_dim(e[2])) or has_dim_product(e[1]) or has_dim_product(e[2])
+
+
+def expr_text(e):
+    if e[0] == "d":
+        return f"d{e[1]}"
+    if e[0] == "c":
+        return str(e[1])
+    return f"({expr_text(e[1])} {OPTEXT[e[0]]} {expr_text(e[2])})"
+
+
+def to_x(e):
+    """raw xDSL expression nodes (no smart constructors: the tree is exactly the JSON tree)"""
+    from xdsl.ir.affine import AffineBinaryOpExpr, AffineBinaryOpKind, AffineConstantExpr, AffineDimExpr
+    kinds = {"+": AffineBinaryOpKind.Add, "*": AffineBinaryOpKind.Mul, "//": AffineBinaryOpKind.FloorDiv,
+             "%": AffineBinaryOpKind.Mod, "ceildiv": AffineBinaryOpKind.CeilDiv}
+    if e[0] == "d":
+        return AffineDimExpr(e[1])
+    if e[0] == "c":
+        return AffineConstantExpr(e[1])
+    return AffineBinaryOpExpr(kinds[e[0]], to_x(e[1]), to_x(e[2]))
+
+
+def of_x(e):
+    from xdsl.ir.affine import AffineBinaryOpExpr, AffineBinaryOpKind, AffineConstantExpr, AffineDimExpr
+    tags = {AffineBinaryOpKind.Add: "+", AffineBinaryOpKind.Mul: "*", AffineBinaryOpKind.FloorDiv: "//",
+            AffineBinaryOpKind.Mod: "%", AffineBinaryOpKind.CeilDiv: "ceildiv"}
+    if isinstance(e, AffineDimExpr):
+        return ["d", e.position]
+    if isinstance(e, AffineConstantExpr):
+        return ["c", e.value]
+    if isinstance(e, AffineBinaryOpExpr):
+        return [tags[e.kind], of_x(e.lhs), of_x(e.rhs)]
+    raise ValueError(f"unsupported affine expression {e}")
+
+
+_PARSED = {}
+
+
+def parsed_exprs(n, exprs):
+    """the expression trees the pass really sees: xDSL's parser builds them with its smart constructors (constant
+    folding, re-association); parser and printer are trusted, the semantics is unchanged"""
+    dims = ", ".join(f"d{k}" for k in range(n))
+    text = f"affine_map<({dims}) -> ({', '.join(expr_text(e) for e in exprs)})>"
+    if text not in _PARSED:
+        import snaxrun
+        from xdsl.parser import Parser
+        m = Parser(snaxrun.ctx(), text).parse_attribute().data
+        _PARSED[text] = [of_x(r) for r in m.results]
+    return _PARSED[text]
+
+
+def gen_lin(rng, n, depth, nonneg):
+    """a linear expression as a random tree of +, * const (either side), dims and constants"""
+    cs = [0, 1, 1, 2, 3, 4, 16] if nonneg else [0, 1, 1, 2, -1, -3, 4, 16]
+    if depth == 0 or rng.random() < 0.3:
+        return ["d", rng.randrange(n)] if rng.random() < 0.75 else ["c", rng.choice(cs)]
+    u = rng.random()
+    if u < 0.55:
+        return ["+", gen_lin(rng, n, depth - 1, nonneg), gen_lin(rng, n, depth - 1, nonneg)]
+    c = ["c", rng.choice(cs)]
+    sub = gen_lin(rng, n, depth - 1, nonneg)
+    return ["*", sub, c] if rng.random() < 0.7 else ["*", c, sub]
+
+
+def gen_nonlin_term(rng, n, nonneg, allow_product):
+    if allow_product and rng.random() < 0.15:
+        return ["*", gen_lin(rng, n, 1, nonneg), ["d", rng.randrange(n)]]
+    lhs = gen_lin(rng, n, rng.choice([0, 0, 1]), nonneg)
+    if not has_dim(lhs) or rng.random() < 0.3:
+        lhs = ["d", rng.randrange(n)]
+    return [rng.choice(NONLIN), lhs, ["c", rng.choice([2, 2, 3, 4, 8])]]
+
+
+def gen_expr_with(rng, n, depth, nonneg, allow_product):
+    """an expression with exactly one non-linear sub-term at a uniformly chosen POSITION of the tree: top level,
+    lhs or rhs of an addition, nested, under a multiplication by a constant (on either side)"""
+    if depth == 0 or rng.random() < 0.25:
+        return gen_nonlin_term(rng, n, nonneg, allow_product)
+    u = rng.random()
+    inner = gen_expr_with(rng, n, depth - 1, nonneg, allow_product)
+    if u < 0.6:
+        other = gen_lin(rng, n, depth - 1, nonneg)
+        return ["+", inner, other] if rng.random() < 0.5 else ["+", other, inner]
+    c = ["c", rng.choice([1, 2, 4, 16] if nonneg else [1, 2, -1, 4, 16])]
+    return ["*", inner, c] if rng.random() < 0.7 else ["*", c, inner]
+
+
+def gen_from_map_case(rng):
+    n = rng.randint(1, 3)
+    nres = rng.randint(1, 3)
+    rs = []
+    for _ in range(nres):
+        if rng.random() < 0.5:
+            rs.append(gen_lin(rng, n, rng.randint(0, 3), False))
+        else:
+            rs.append(gen_expr_with(rng, n, rng.randint(0, 3), False, True))
+    return {"kind": "from_map", "n": n, "rs": rs, "bounds": [rng.choice([1, 2, 3, 4, 5]) for _ in range(n)]}
+
+
+def gen_pass_expr_case(rng):
+    """dart-scheduler on snax_alu operations whose first operand is indexed by a map with arbitrary (also
+    non-linear) result expressions; the other operands are indexed by the identity so the bounds are defined"""
+    n = rng.choice([1, 2, 2, 2, 3])
+    ops = []
+    for i in range(rng.choice([1, 1, 2])):
+        bounds = [rng.choice([2, 4, 4, 8, 16]) for _ in range(n)]
+        op = {"bounds": bounds, "maps": [list(range(n))] * 3}
+        if i == 0 or rng.random() < 0.5:
+            nres = rng.choice([1, 1, 2])
+            op["expr0"] = [gen_lin(rng, n, rng.randint(1, 3), True) if rng.random() < 0.45
+                           else gen_expr_with(rng, n, rng.randint(0, 2), True, False) for _ in range(nres)]
+        ops.append(op)
+    if rng.random() < 0.3:
+        ops.reverse()
+    return {"kind": "pass", "acc": "snax_alu", "ops": ops}
+
+
+def op_points(op):
+    bounds = op["bounds"]
+    return list(itertools.product(*[range(b) for b in bounds]))
+
+
+def image_of_passop(op):
+    """operand-index tuples of a generated operation, from the case data and the TRUE map semantics"""
+    n = len(op["bounds"])
+    pts = op_points(op)
+    rows = []
+    for x in pts:
+        r = []
+        for k, pm in enumerate(op["maps"]):
+            if k == 0 and "expr0" in op:
+                r += [ev(e, x) for e in op["expr0"]]
+            else:
+                r += [x[p] for p in pm]
+        rows.append(r)
+    width = sum(len(op["expr0"]) if (k == 0 and "expr0" in op) else len(pm) for k, pm in enumerate(op["maps"]))
+    return np.array(rows, dtype=np.int64).reshape(len(pts), width)
+
+
+# ------------------------------------------------------------------------------------------------
 # the real `dart-scheduler` pass on modules with several operations (history inside one pass run)
 # ------------------------------------------------------------------------------------------------
 ELEM = {"i8": 1, "i32": 4, "i64": 8}
@@ -157,7 +336,10 @@ def perm_rows(perm, n):
 def pass_op_sched(op):
     """the operation's own access patterns as a schedule JSON (from the case data only)"""
     n = len(op["bounds"])
-    return {"bounds": list(op["bounds"]), "ops": [{"A": perm_rows(pm, n), "b": [0] * len(pm)} for pm in op["maps"]]}
+    ops = [{"A": perm_rows(pm, n), "b": [0] * len(pm)} for pm in op["maps"]]
+    if "expr0" in op:   # placeholder, replaced by the model's from_affine_map of the expressions
+        ops[0] = {"A": [[0] * n for _ in op["expr0"]], "b": [0] * len(op["expr0"])}
+    return {"bounds": list(op["bounds"]), "ops": ops}
 
 
 def render_pass_module(case):
@@ -167,8 +349,14 @@ def render_pass_module(case):
     for i, op in enumerate(case["ops"]):
         n = len(op["bounds"])
         dims = ", ".join(f"d{k}" for k in range(n))
-        maps = ", ".join(f"affine_map<({dims}) -> ({', '.join('d%d' % p for p in pm)})>" for pm in op["maps"])
+        mapl = [f"affine_map<({dims}) -> ({', '.join('d%d' % p for p in pm)})>" for pm in op["maps"]]
         mts = ["memref<" + "".join(f"{op['bounds'][p]}x" for p in pm) + ty + ">" for pm, ty in zip(op["maps"], tys)]
+        if "expr0" in op:
+            pts = op_points(op)
+            ext = [max(ev(e, x) for x in pts) + 1 for e in op["expr0"]]
+            mapl[0] = f"affine_map<({dims}) -> ({', '.join(expr_text(e) for e in op['expr0'])})>"
+            mts[0] = "memref<" + "".join(f"{max(v, 1)}x" for v in ext) + tys[0] + ">"
+        maps = ", ".join(mapl)
         args += [f"%t{i}_{k} : {mt}" for k, mt in enumerate(mts)]
         operands = ", ".join(f"%t{i}_{k}" for k in range(3))
         st = [f"!dart.stream<{ty}>" for ty in tys]
@@ -485,6 +673,12 @@ class SchedProp(Prop):
             return {"results": [of_sched(r) for r in run_backtrack(case)]}
         if kind == "construct":
             return {"accepted": of_sched(mk_sched(case["s"]))}      # ValueError = rejected
+        if kind == "from_map":
+            # the construction path of every pattern: AffineMap -> SchedulePattern -> AffineTransform.from_affine_map
+            from snaxc.ir.dart.access_pattern import SchedulePattern
+            from xdsl.ir.affine import AffineMap
+            p = SchedulePattern(case["bounds"], AffineMap(case["n"], 0, tuple(to_x(e) for e in case["rs"])))
+            return {"A": [[int(v) for v in row] for row in p.pattern.A.tolist()], "b": [int(v) for v in p.pattern.b.tolist()]}
         if kind == "scheduler":
             # the top-level entry point; an empty search raises StopIteration, a bad index IndexError
             from snaxc.ir.dart.scheduler import scheduler
@@ -521,12 +715,15 @@ class SchedProp(Prop):
         if kind == "scheduler":
             return [{"fn": "c03.backtrack", "args": {"t": case["t"], "s": case["s"], "k": 1,
                                                       "checks": case["checks"], "fuel": FUEL}}]
+        if kind == "from_map":
+            return [{"fn": "c03.from_affine_map", "args": {"n": case["n"], "results": case["rs"]}}]
         if kind == "construct":
             return [{"fn": "c03.construct", "args": {"bounds": case["s"]["bounds"], "ops": case["s"]["ops"]}}]
         if kind == "pass":
             sizes = [ELEM[ty] for ty in ACC_TYPES[case["acc"]]]
-            return [{"fn": "c03.autoflow", "args": {"t": template_of(case), "s": pass_op_sched(op), "sizes": sizes,
-                                                     "fuel": FUEL}} for op in case["ops"]]
+            return [{"fn": "c03.autoflow", "args": dict({"t": template_of(case), "s": pass_op_sched(op), "sizes": sizes,
+                                                          "fuel": FUEL}, **({"expr0": parsed_exprs(len(op["bounds"]), op["expr0"])} if "expr0" in op else {}))}
+                    for op in case["ops"]]
         if kind == "match":
             return [{"fn": "c16.matches", "args": {"t": case["t"], "s": case["s"]}}]
         if kind == "check":
@@ -543,7 +740,7 @@ class SchedProp(Prop):
         vals = [a["ok"] for a in answers]
         if kind == "xform":
             return dict(zip(["rotate", "tile", "add_dim", "clear", "canon", "inner", "image"], vals))
-        if kind == "construct":
+        if kind in ("construct", "from_map"):
             return vals[0]
         if kind == "scheduler":
             # scheduler() = first (or idx-th) element of the search, or "no schedule"
@@ -571,7 +768,9 @@ class SchedProp(Prop):
         if isinstance(impl_out, dict) and "raised" in impl_out:
             return f"{k}:raised:{impl_out['raised']}"
         if k == "pass":
-            return f"pass:{case['acc']}:{len(case['ops'])} ops"
+            return f"pass:{case['acc']}:{len(case['ops'])} ops" + (":expr" if any("expr0" in o for o in case["ops"]) else "")
+        if k == "from_map":
+            return "from_map:accepted" + (":nonaffine-product" if any(has_dim_product(e) for e in case["rs"]) else "")
         if k == "scheduler":
             return "scheduler:returned" + ("" if case.get("idx") is None else ":idx")
         if k == "backtrack":
@@ -661,6 +860,10 @@ class C03(SchedProp):
             yield gen_construct_case(rng)
         for _ in range(120 if tier == "quick" else 2500):
             yield gen_pass_case(rng)
+        for _ in range(400 if tier == "quick" else 8000):
+            yield gen_from_map_case(rng)
+        for _ in range(80 if tier == "quick" else 1500):
+            yield gen_pass_expr_case(rng)
         if tier == "thorough":
             yield from exhaustive_small_space()
 
@@ -671,6 +874,8 @@ class C03(SchedProp):
             yield gen_backtrack_case(rng, "thorough")
             yield gen_construct_case(rng)
             yield gen_pass_case(rng)
+            yield gen_from_map_case(rng)
+            yield gen_pass_expr_case(rng)
 
     def oracle(self, case, impl_out):
         """The property on the real objects: same multiset of operand-index tuples (numpy enumeration)."""
@@ -702,6 +907,25 @@ class C03(SchedProp):
             chk("add_dim()", lambda: s.add_dim())
             chk("clear_unused_dims()", lambda: s.clear_unused_dims())
             chk("canonicalize()", lambda: s.canonicalize())
+        elif kind == "from_map":
+            # whenever the real construction ACCEPTS a map, (A, b) must evaluate like the map (true semantics, incl.
+            # floordiv / mod / ceildiv) on every point of the box; a ValueError is fine
+            if "raised" in impl_out:
+                if not any(has_divmod(e) for e in case["rs"]):
+                    out.append({"what": f"from_affine_map raised {impl_out['raised']} on a map without floordiv/mod/ceildiv",
+                                "finding": None})
+                return out
+            if any(has_dim_product(e) for e in case["rs"]):
+                return out      # raw d_i * d_j: not an affine expression, outside the quantifier (see C19 fromMap_nonlinear_fails)
+            A, b = impl_out["A"], impl_out["b"]
+            pts = list(itertools.product(*[range(v) for v in case["bounds"]])) + [tuple(7 + 3 * i for i in range(case["n"]))]
+            for x in pts:
+                want = [ev(e, x) for e in case["rs"]]
+                got = [sum(a * v for a, v in zip(row, x)) + c for row, c in zip(A, b)]
+                if got != want:
+                    out.append({"what": f"from_affine_map accepted ({', '.join(expr_text(e) for e in case['rs'])}) and returned A={A}, "
+                                        f"b={b}, which gives {got} instead of {want} at {list(x)}", "finding": None})
+                    break
         elif kind == "construct":
             # whatever the real constructor ACCEPTS must be handled correctly by everything downstream
             try:
@@ -754,9 +978,9 @@ class C03(SchedProp):
                 if "unscheduled" in sj:
                     out.append({"what": f"operation #{i} was left unscheduled", "finding": None})
                     continue
-                own = pass_op_sched(op)
-                if not same_multiset(image_of_json(sj), image_of_json(own)):
-                    out.append({"what": f"dart-scheduler: operation #{i} of {len(scheds)} (bounds {op['bounds']}, maps {op['maps']}) got a "
+                if not same_multiset(image_of_json(sj), image_of_passop(op)):
+                    desc = f"operand 0 indexed by ({', '.join(expr_text(e) for e in op['expr0'])}), " if "expr0" in op else ""
+                    out.append({"what": f"dart-scheduler: operation #{i} of {len(scheds)} ({desc}bounds {op['bounds']}, maps {op['maps']}) got a "
                                         f"dart.schedule with bounds {sj['bounds']}, first map A={sj['ops'][0]['A']} that visits a different "
                                         f"multiset of operand-index tuples than the operation's own access patterns", "finding": None})
         elif kind == "backtrack":
@@ -778,6 +1002,8 @@ class C03(SchedProp):
             return "schedules" in impl_out and len(case["ops"]) > 1
         if case["kind"] == "construct":
             return True
+        if case["kind"] == "from_map":
+            return any(e[0] not in "dc" for e in case["rs"])
         if case["kind"] == "backtrack":
             return "results" in impl_out and any(r != case["s"] for r in impl_out["results"])
         return True
